@@ -39,6 +39,8 @@ func runC04(p *load.Program, r *core.Report) {
 	c04Existence(a, r)
 	releaseRules(a, r, "C04.L2 drain-on-disappearance", 9)
 	c04MetaAndSpawnDrain(a, r)
+	// the drain at termination walks the process's alias list: its maintenance is part of L2
+	swapDeleteRules(a, r, "C04.L2c identity-list-maintenance")
 	c04Fanout(a, r)
 	c04Remove(a, r)
 	c04Index(a, r)
@@ -633,10 +635,53 @@ func c04Index(a *Anchors, r *core.Report) {
 				probs = append(probs, fmt.Sprintf("after the %s on the relation set at %s a return is reachable without the matching %s on the target index: the two indexes diverge (a drained target still lists the relation, or a live relation is invisible to the drain)", m.op, a.P.Pos(m.in.Pos()), m.op))
 			}
 		}
+		// the per-target index entry as a whole is dropped only when its inner set is empty
+		// (or when the function removes every relation of that target, as the target drain does)
+		for _, m := range muts {
+			if m.which != "index-outer" || m.op != "delete" {
+				continue
+			}
+			guarded := false
+			eachInstr(f, func(in ssa.Instruction) {
+				b, ok := in.(*ssa.BinOp)
+				if !ok || b.Op != token.EQL {
+					return
+				}
+				c, okc := b.X.(*ssa.Call)
+				z, okz := constInt(b.Y)
+				if !okc || !okz || z != 0 {
+					return
+				}
+				if bi, okb := c.Common().Value.(*ssa.Builtin); !okb || bi.Name() != "len" {
+					return
+				}
+				if mapOrigin(c.Common().Args[0]) != "index-inner" {
+					return
+				}
+				t, _, _ := boolEdges(b)
+				if edgesDominate(t, m.in) {
+					guarded = true
+				}
+			})
+			drainsAll := false
+			eachInstr(f, func(in ssa.Instruction) {
+				// range over the inner map with a delete on relations inside: every relation of the target goes
+				if rg, ok := in.(*ssa.Range); ok && mapOrigin(rg.X) == "index-inner" {
+					for _, m2 := range muts {
+						if m2.which == "relations" && m2.op == "delete" && instrReachable(in, m2.in) && instrReachable(m2.in, m.in) {
+							drainsAll = true
+						}
+					}
+				}
+			})
+			if !guarded && !drainsAll {
+				probs = append(probs, "the whole index entry of a target is deleted at "+a.P.Pos(m.in.Pos())+" without the test that no relation on that target is left (len(keys) == 0): the remaining links/monitors on the target stay in the relation set but are invisible to the drain, so they are never notified")
+			}
+		}
 		if len(probs) > 0 {
 			r.Bad(rule, key, fn, a.P.Pos(f.Pos()), inst, strings.Join(uniq(probs), "; "))
 		} else {
-			r.OK(rule, key, fn, a.P.Pos(f.Pos()), inst, fmt.Sprintf("%d mutation(s), all under Lock, relation changes mirrored", len(muts)))
+			r.OK(rule, key, fn, a.P.Pos(f.Pos()), inst, fmt.Sprintf("%d mutation(s), all under Lock, relation changes mirrored, index entries dropped only when empty", len(muts)))
 		}
 	}
 }
